@@ -2,7 +2,7 @@
 
 from __future__ import annotations
 
-from .. import gen, probe, spec
+from .. import smallworld, gen, probe, spec
 from ..probe import violation
 from .common import scale_leg, call, grow_while_asking, use_as_input_of_derivations
 
@@ -41,8 +41,53 @@ AMBIG = [
 ]
 
 
+def relate(c, q, d, w):
+    """Every derived operation on one string, and the relations between the converter's own answers."""
+    S = probe.S
+    iu, ic = call(c.is_uri, q), call(c.is_curie, q)
+    co, pu = call(c.compress, q), call(c.parse_uri, q, return_none=True)
+    ex, pc = call(c.expand, q), call(c.parse_curie, q)
+    pa = call(c.parse, q, strict=False)
+    cs, es = call(c.compress_or_standardize, q), call(c.expand_or_standardize, q)
+    cst, est = call(c.compress_strict, q), call(c.expand_strict, q)
+    cT, eT = call(c.compress, q, strict=True), call(c.expand, q, strict=True)
+    probe.evaluated("derived-equivalences")
+
+    def bad(mech, **kw):
+        violation(["C07"], "derived-equivalences", mech, string=q, **kw, **w)
+
+    if not (iu[0] == "ret" and iu[1] == (co[0] == "ret" and co[1] is not None) == (pu[0] == "ret" and pu[1] is not None)):
+        bad("is_uri-compress-parse_uri-disagree", is_uri=iu, compress=co, parse_uri=pu)
+    ex_ok = ex[0] == "ret" and ex[1] is not None
+    if ic != ("ret", ex_ok):
+        bad("is_curie-expand-disagree", is_curie=ic, expand=ex)
+    if ic == ("ret", True) and d not in q:
+        bad("is_curie-without-delimiter", is_curie=ic)
+    if w.get("built") == "hooked-subclass":
+        S.counters["wl:strings-asked-of-hooked-subclass"] += 1
+    want_parse = pu if (pu[0] == "ret" and pu[1] is not None) else pc if (pc[0] == "ret" and pc[1] is not None) else ("ret", None)
+    if pa != want_parse:
+        bad("parse-is-not-uri-first-then-curie", parse=pa, parse_uri=pu, parse_curie=pc)
+    if pa[0] == "ret":
+        t = pa[1]
+        want_cs = None if t is None else call(c.format_curie, t.prefix, t.identifier)[1]
+        want_es = None if t is None else call(c.expand_pair, t.prefix, t.identifier)[1]
+        if cs != ("ret", want_cs):
+            bad("compress_or_standardize-is-not-curie-of-parse", got=cs, parse=pa)
+        if es != ("ret", want_es):
+            bad("expand_or_standardize-is-not-uri-of-parse", got=es, parse=pa)
+    if probe.okey(cst) != probe.okey(cT) or probe.okey(est) != probe.okey(eT):
+        bad("strict-aliases-differ", compress_strict=cst, compress_T=cT, expand_strict=est, expand_T=eT)
+
+
 def run_case(ctx, g, rng):
     api, S = ctx.api, probe.S
+    if smallworld.active(ctx, g):
+        for c_, recs_, d_ in smallworld.chunk(ctx, g):
+            w_ = {"records": [spec.rec_dict(r) for r in recs_], "delimiter": d_, "built": "curie-small-world"}
+            for q in smallworld.queries(ctx.tier, d_):
+                relate(c_, q, d_, w_)
+        probe.note_key(f"curie-small-world:chunk{g % 40}", True)
     scale_leg(ctx, rng, rng.choice([":", ":", "/", "::"]), modes=False, g=g)
     if g % 3 == 0:
         d = ":"
@@ -89,40 +134,7 @@ def run_case(ctx, g, rng):
     if hooked:
         extra += [p + d + sp.prefix_owner(p).prefix + d + "1" for p in allp[:4]] + [p + d + "no!" for p in allp[:3]]
     for q in gen.query_strings(recs, d, rng, extra):
-        iu, ic = call(c.is_uri, q), call(c.is_curie, q)
-        co, pu = call(c.compress, q), call(c.parse_uri, q, return_none=True)
-        ex, pc = call(c.expand, q), call(c.parse_curie, q)
-        pa = call(c.parse, q, strict=False)
-        cs, es = call(c.compress_or_standardize, q), call(c.expand_or_standardize, q)
-        cst, est = call(c.compress_strict, q), call(c.expand_strict, q)
-        cT, eT = call(c.compress, q, strict=True), call(c.expand, q, strict=True)
-        probe.evaluated("derived-equivalences")
-
-        def bad(mech, **kw):
-            violation(["C07"], "derived-equivalences", mech, string=q, **kw, **w)
-
-        if not (iu[0] == "ret" and iu[1] == (co[0] == "ret" and co[1] is not None) == (pu[0] == "ret" and pu[1] is not None)):
-            bad("is_uri-compress-parse_uri-disagree", is_uri=iu, compress=co, parse_uri=pu)
-        ex_ok = ex[0] == "ret" and ex[1] is not None
-        if ic != ("ret", ex_ok):
-            bad("is_curie-expand-disagree", is_curie=ic, expand=ex)
-        if ic == ("ret", True) and d not in q:
-            bad("is_curie-without-delimiter", is_curie=ic)
-        if hooked:
-            S.counters["wl:strings-asked-of-hooked-subclass"] += 1
-        want_parse = pu if (pu[0] == "ret" and pu[1] is not None) else pc if (pc[0] == "ret" and pc[1] is not None) else ("ret", None)
-        if pa != want_parse:
-            bad("parse-is-not-uri-first-then-curie", parse=pa, parse_uri=pu, parse_curie=pc)
-        if pa[0] == "ret":
-            t = pa[1]
-            want_cs = None if t is None else call(c.format_curie, t.prefix, t.identifier)[1]
-            want_es = None if t is None else call(c.expand_pair, t.prefix, t.identifier)[1]
-            if cs != ("ret", want_cs):
-                bad("compress_or_standardize-is-not-curie-of-parse", got=cs, parse=pa)
-            if es != ("ret", want_es):
-                bad("expand_or_standardize-is-not-uri-of-parse", got=es, parse=pa)
-        if probe.okey(cst) != probe.okey(cT) or probe.okey(est) != probe.okey(eT):
-            bad("strict-aliases-differ", compress_strict=cst, compress_T=cT, expand_strict=est, expand_T=eT)
+        relate(c, q, d, w)
         is_u = sp.parse_uri(q) is not None
         is_c = sp.parse_curie(q) is not None
         nontrivial = (is_u and is_c) or d not in q or q == ""
@@ -144,3 +156,7 @@ def run_case(ctx, g, rng):
         q = (allp[0] + d + allu[0] + "1") if allp and allu else "x"
         probe.sample({**w, "string": q, "parse": call(c.parse, q, strict=False), "compress_or_standardize": call(c.compress_or_standardize, q),
                       "expand_or_standardize": call(c.expand_or_standardize, q)})
+
+
+def EXHAUSTIVE(tier, counters):
+    return smallworld.exhaustive(tier, counters)
